@@ -105,4 +105,86 @@ theorem propGet_none_eq (o : Nat) (key : String) (s : State) (a : Arr) (h : (s.o
   rw [post_bind_getS, post_bind_keyErr, h]
   exact ⟨rfl, rfl⟩
 
+/-! ### decomposition of composite calls into their building blocks -/
+
+theorem bind_ok {α β : Type} (m : M α) (f : α → M β) (s s' : State) (b : β) (h : (m >>= f) s = (.ok b, s')) :
+    ∃ a s1, m s = (.ok a, s1) ∧ f a s1 = (.ok b, s') := by
+  have h' : M.bind m f s = (.ok b, s') := h
+  unfold M.bind at h'
+  cases hm : m s with
+  | mk r s1 =>
+    rw [hm] at h'
+    cases r with
+    | ok a => exact ⟨a, s1, rfl, h'⟩
+    | error e => simp at h'
+
+theorem atomic_ok {α : Type} (m : M α) (s s' : State) (a : α) (h : atomic m s = (.ok a, s')) : m s = (.ok a, s') := by
+  unfold atomic at h
+  cases hm : m s with
+  | mk r s1 =>
+    rw [hm] at h
+    cases r with
+    | ok a' => simpa using h
+    | error e => simp at h
+
+/-- `atoms.extend(n)` is `Atoms(natoms=n)` followed by `atoms.extend(that)`. -/
+theorem extendInt_decomp (o : Nat) (n : Int) (s s' : State) (nw : Nat) (h : extendInt o n s = (.ok nw, s')) :
+    ∃ d s1, mkAtoms (some n) none none [] s = (.ok d, s1) ∧ extendWith o d s1 = (.ok nw, s') := by
+  unfold extendInt at h
+  exact bind_ok _ _ s s' nw (atomic_ok _ s s' nw h)
+
+/-- `atoms.prop(index=…)` is `deepcopy(atoms[index])`. -/
+theorem propGetAtoms_decomp (o : Nat) (ix : Index) (s s' : State) (nw : Nat) (h : propGetAtoms o ix s = (.ok nw, s')) :
+    ∃ t s1, getItem o ix s = (.ok t, s1) ∧ deepcopy t s1 = (.ok nw, s') := by
+  unfold propGetAtoms at h
+  exact bind_ok _ _ s s' nw (atomic_ok _ s s' nw h)
+
+/-- `system.atoms_ix[index]` is `atoms[index]`, a read of `symbols`, and `System(atoms=…, symbols=…)`. -/
+theorem ixGet_decomp (i : Nat) (ix : Index) (s s' : State) (r : Nat × Nat) (h : ixGet i ix s = (.ok r, s')) :
+    ∃ a s1 syms s2, getItem (s.sys i).atoms ix s = (.ok a, s1) ∧ symbolsGet i s1 = (.ok syms, s2) ∧
+      mkSys a (s.sys i).box (s.sys i).pbc (some syms) none s2 = (.ok r.2, s') ∧ r.1 = a := by
+  unfold ixGet at h
+  have h0 : (getItem (s.sys i).atoms ix >>= fun a => symbolsGet i >>= fun syms =>
+      mkSys a (s.sys i).box (s.sys i).pbc (some syms) none >>= fun j => pure (a, j)) s = (.ok r, s') := h
+  obtain ⟨a, s1, h1, h2⟩ := bind_ok _ _ s s' r h0
+  obtain ⟨syms, s2, h3, h4⟩ := bind_ok _ _ s1 s' r h2
+  obtain ⟨j, s3, h5, h6⟩ := bind_ok _ _ s2 s' r h4
+  have : (Except.ok (a, j), s3) = ((Except.ok r : Except Err (Nat × Nat)), s') := h6
+  injection this with e1 e2
+  injection e1 with e1
+  subst e1; subst e2
+  exact ⟨a, s1, syms, s2, h1, h3, h5, rfl⟩
+
+/-- `atoms_prop(key, index, value, scale=True)` is `prop(key, index, value')` with `value'` the Cartesian
+    image of the box-relative `value` (refused when `value` is not a list of 3-vectors). -/
+theorem sysPropSetScaled_decomp (i : Nat) (key : String) (ix : Option Index) (v : Val) (s : State) :
+    sysPropSetScaled i key ix v s =
+      match relToCartVal (s.sys i).box v with
+      | .ok v' => propSet (s.sys i).atoms key ix v' s
+      | .error e => (.error e, s) := by
+  unfold sysPropSetScaled
+  show M.bind getS _ s = _
+  unfold M.bind getS
+  simp only []
+  cases relToCartVal (s.sys i).box v <;> rfl
+
+/-- `atoms.prop_atype(key, value)` is `view[key] = value[atype - 1]`: the per-type table looked up by every
+    atom's type, assigned as a whole column (so `viewSet_existing_refines` / `viewSet_new_refines` apply). -/
+theorem propAtype_none_decomp (o : Nat) (key : String) (v : Val) (s : State) (ta : Arr) (nv nt : Nat) (trail : List Nat)
+    (hfind : (s.obj o).find "atype" = some ta) (hshape : v.shape = nv :: trail) (hnt : (natypes o s).1 = .ok nt)
+    (hnv : ¬ nv < nt) (hdt : arrDt s ta = .int) (htr : arrTrail s ta = []) :
+    propAtype o key v none s =
+      viewSet o key (.lit ⟨v.dt, ta.idx.length :: trail, ((arrVal s ta).data.map (fun c => match c with
+        | .int i => (rowsOf nv (prod trail) v.data)[(i - 1).toNat]?.getD []
+        | _ => [])).flatten⟩) s := by
+  unfold propAtype
+  show M.bind getS _ s = _
+  unfold M.bind getS
+  simp only [hfind, keyErr, liftO, M.pure, hshape]
+  show M.bind (natypes o) _ s = _
+  unfold M.bind
+  rw [natypes_eq o s, hnt]
+  simp only [hnv, if_false, hdt, htr, ne_eq, not_true_eq_false, or_self]
+  rfl
+
 end Atomman.C06
